@@ -1191,7 +1191,7 @@ class C07(Prop):
         """A few fixed programs: the documented argument forms with and without any globals."""
 
         def iso(callee: str, main: list[dict[str, Any]], a: list[dict[str, Any]], expect: dict[str, Any],
-                data: dict[str, Any], mode: str) -> dict[str, Any]:
+                data: dict[str, Any], mode: str, pre: list[dict[str, Any]] | None = None) -> dict[str, Any]:
             vary = {"t": "var", "who": "caller:1", "a": [ASSIGN("x", ["int", 1])], "b": [ASSIGN("x", ["int", 2])]}
             eff = {"t": "var", "who": "callee:2", "a": [ASSIGN("b", ["int", 3])], "b": [ASSIGN("b", ["int", 4])]}
             body = probe("L") + a + [eff]
@@ -1202,7 +1202,7 @@ class C07(Prop):
             else:
                 head = [{"t": "macro", "name": "m", "params": [["a", None], ["c", ["int", 7]]], "body": body}]
             return {"kind": "iso", "callee": callee, "cctx": "top", "wrappers": [], "outer_bound": False,
-                    "main": head + [vary, T(S_OPEN), *main, T(S_CLOSE), *probe("R")], "templates": templates,
+                    "main": head + [vary, *(pre or []), T(S_OPEN), *main, T(S_CLOSE), *probe("R")], "templates": templates,
                     "data": data, "varied_caller": [["x", "assign", 1]], "varied_callee": [["b", "assign", 2]],
                     "expect": expect, "mode": mode}
 
@@ -1223,6 +1223,18 @@ class C07(Prop):
                       [], {"a": "P", "c": "GA"}, {"a": "GA"}, mode)
             yield iso("call", [{"t": "call", "name": "m", "args": [["str", "P"]], "kwargs": [["c", ["path", "a", []]]]}],
                       [], {"a": "P", "c": "GA"}, {"a": "GA"}, mode)
+
+        # an earlier call (or render) that was handed the caller's variable leaves nothing behind for a later one
+        for mode in ("sync", "async"):
+            xarg = ["path", "x", []]
+            yield iso("call", [{"t": "call", "name": "m", "args": [], "kwargs": []}], [], {"a": "", "c": "7"}, {}, mode,
+                      pre=[{"t": "call", "name": "m", "args": [xarg], "kwargs": [["c", xarg]]}])
+            yield iso("call", [{"t": "call", "name": "m", "args": [], "kwargs": [["c", ["int", 9]]]}], [],
+                      {"a": "", "c": "9"}, {}, mode,
+                      pre=[{"t": "call", "name": "m", "args": [xarg, xarg], "kwargs": [["k", xarg]]}])
+            yield iso("render", [{"t": "render", "name": ["str", "a"], "args": []}], [], {"a": ""}, {}, mode,
+                      pre=[{"t": "render", "name": ["str", "a"], "args": [["a", xarg], ["c", xarg]]},
+                           {"t": "render", "name": ["str", "a"], "var": xarg, "loop": False, "args": []}])
 
         # items of `render ... for` do not see one another's assignments
         bodies = [
